@@ -232,6 +232,12 @@ def gen_cc(add, rnd, thorough):
                     variants = [s for s in variants if not s.lstrip(" -").lower().startswith("0x")]
                 for s in (variants if thorough else variants[:2] + variants[4:5]):
                     add("%s fn=%s s=%s base=%d" % (op, fn, enc(s), b), op)
+        # base 0 (prefix detection like strtol): the view / string ends right behind "0x", or behind the first digit after it
+        for s0 in ("0x", "0X", "0", "0x1", "0Xf", "07", "08", "0xg", "-0x", "-0X1", "0x0x", "1", "00x1"):
+            if fn.startswith("ato") or (s0.startswith("-") and lo == 0):
+                continue
+            add("%s fn=%s s=%s base=0" % (op, fn, enc(s0)), op)
+        for b in fbases:
             if op == "cc.cstr":                              # no conversion: value 0, end = str (sto*: known finding)
                 for s in ("", " ", "!", "-", "z" if b < 36 else "{"):
                     add("%s fn=%s s=%s base=%d" % (op, fn, enc(s), b), op)
